@@ -10,6 +10,10 @@
                                       then one field per token slice of iter_chunks(): its tokens (span, kind id) and
                                       what each pattern rule returns on it now (document space).  Hull, chunk characters,
                                       relative tokens, key, hit/miss, pull_by / push_by: the MODEL.  prints "P" or "s e p ..."
+     R Name ls le | s0 e0 s1 e1 .. -> the span of the lint the body of pattern rule Name (a row of Tables_c03roots) makes on a matched
+                                      slice whose tokens have these spans (C03Roots.run_rule_span): prints "s e" — computed from the
+                                      token spans alone when the rule's sources need no run-time value, else `ls le` when some source
+                                      denotes it for some run-time values — or "none" / "unknown-rule"
      GE|...                        -> the same call on the same state, but over the REAL LRU (Model/C03LintGroupLru.v: promotion on
                                       get, least recently used entry popped on put at capacity lint_group_cache_cap) *)
 let rec pairs = function a :: b :: t -> (nat_of_int a, nat_of_int b) :: pairs t | _ -> []
@@ -93,6 +97,20 @@ let () =
                    | UNone -> print_endline "-"
                    | UText t -> print_endline (String.trim ("T " ^ line_of_text t))
                    | UNums ns -> print_endline (String.trim ("L " ^ String.concat " " (List.map dec_of_n ns))))
+              | _ -> print_endline "?")
+         | _ -> print_endline "?")
+    | 'R' ->
+        (match split_bar body with
+         | [hd; sp] ->
+             (match words hd with
+              | [name; ls; le] ->
+                  let nm = List.init (String.length name) (fun i -> nat_of_int (Char.code name.[i])) in
+                  let got = { sstart = nat_of_int (int_of_string ls); send = nat_of_int (int_of_string le) } in
+                  let spans = List.map (fun (a, b) -> { sstart = a; send = b }) (pairs (ints_of_line sp)) in
+                  (match run_rule_span pattern_rule_lint_asts nm spans got with
+                   | None -> print_endline "unknown-rule"
+                   | Some None -> print_endline "none"
+                   | Some (Some s) -> print_endline (Printf.sprintf "%d %d" (int_of_nat s.sstart) (int_of_nat s.send)))
               | _ -> print_endline "?")
          | _ -> print_endline "?")
     | 'G' ->
